@@ -1,3 +1,4 @@
 import BU.Properties.C05
+#print axioms C05.assembleSpent_eq
 #print axioms C05.taproot_digest_eq_bip341
 #print axioms C05.ignores_scriptsigs_witnesses
